@@ -441,6 +441,12 @@ def main():
         for _ in range(rng.randint(0, 4)):
             c = gen_var(rng, rng.randint(1, 3), used)
             ds[c.name] = c
+        # two lists that are numerically equal but of different type (ints / integral floats) keep their own types
+        if rng.random() < 0.35:
+            twins = [[0, 7], [0.0, 7.0]] if rng.random() < 0.5 else [[-999.0, 999.0, 5.0], [-999, 999, 5]]
+            holders = [v for v in walk(ds) if not ("." in v.id and type(ds[v.id.rsplit(".", 1)[0]]).__name__ == "GridType")]
+            for lst in twins:
+                rng.choice(holders).attributes["twin_%s" % type(lst[0]).__name__] = list(lst)
         stats["datasets"] += 1
         for v in walk(ds):
             count_vals(v.attributes)
@@ -458,6 +464,10 @@ def main():
         # the real client
         try:
             cl = open_url("http://localhost:8001/", application=BaseHandler(ds))
+            if rng.random() < 0.5:
+                # the same dataset (the same DAS text) opened once more in this process: it gets its attributes again
+                cl = open_url("http://localhost:8001/", application=BaseHandler(ds))
+                stats["opened_twice"] = stats.get("opened_twice", 0) + 1
         except Exception as e:  # noqa
             direct.append({"law": "a client can open a dataset whose attributes are DAS-safe", "das": text, "error": repr(e)[:300]})
             continue
